@@ -118,7 +118,7 @@ Listings(n) == UNION {Perms(S) : S \in (SUBSET (1..n)) \ {{}}}
 NoAnti(n)   == [m \in 1..n |-> <<>>]
 
 FileCases == ndJsonDeserialize(IOEnv.CASES)
-FileCase(r) == [n |-> r.n, deps |-> r.deps, anti |-> NoAnti(r.n), backend |-> {},
+FileCase(r) == [n |-> r.n, deps |-> r.deps, anti |-> (IF "anti" \in DOMAIN r THEN r.anti ELSE NoAnti(r.n)), backend |-> {},
                 list |-> r.list, missing |-> Range(r.missing),
                 nopost |-> Range(r.nopost), nodtor |-> Range(r.nodtor), noctor |-> Range(r.noctor)]
 
@@ -279,10 +279,11 @@ Ctor ==
                     /\ advance
                     /\ UNCHANGED <<cs, phase, mods, handle, visited, backend, ii, visit, node, dstack,
                                    closing, log, status>>
-              [] call.k = "anti" /\ call.t \in mods ->      \* module_antidepends()
+              [] call.k = "anti" /\ call.t \in mods ->      \* module_antidepends(): the same edge, declared by its target
                     /\ depends' = [depends EXCEPT ![call.t] = Append(@, loading)]
+                    /\ rdepends' = IF Bug = "NoAntiMirror" THEN rdepends ELSE [rdepends EXCEPT ![loading] = Append(@, call.t)]
                     /\ advance
-                    /\ UNCHANGED <<cs, phase, mods, rdepends, handle, visited, backend, ii, visit, node,
+                    /\ UNCHANGED <<cs, phase, mods, handle, visited, backend, ii, visit, node,
                                    dstack, closing, log, status>>
 
 (* ------------------------------ module_load_list, second half ------------------------------ *)
@@ -448,8 +449,9 @@ Spec == Init /\ [][Next]_vars
 
 (* ------------------------------ B => A ------------------------------ *)
 
-\* the contract speaks about module_depends() graphs only
-InContract == \A m \in Mods : cs.anti[m] = <<>> /\ m \notin cs.backend
+\* the contract speaks about graphs declared with module_depends() and module_antidepends() (consistently, see
+\* ModLoadContract!Consistent); module_is_backend() is outside it
+InContract == Consistent(cs) /\ \A m \in Mods : m \notin cs.backend
 
 AtExit(name) == (phase = "exited" /\ InContract) => Holds(name, cs, log, status)
 
@@ -483,18 +485,18 @@ SetEmptyAtExit == phase = "exited" => status # 134
 NoGhostInGoodCase ==
     (phase = "close" /\ InContract /\ Good(cs)) => \A m \in mods : handle[m]
 
-\* exploration only (WithAnti): module_antidepends() "must be unloaded after it" (README)
+\* module_antidepends() "must be unloaded after it" (README); implied by B_DtorBeforeDeps, stated on its own
 AntiUnloadedAfter ==
-    phase = "exited" =>
+    (phase = "exited" /\ InContract /\ Good(cs)) =>
         \A p \in Mods : \A q \in Range(cs.anti[p]) :
-            \A i \in 1..Len(log) : log[i] = Ev("dtor", p) => Before(log, "dtor", q, i)
+            \A i \in 1..Len(log) : (log[i] = Ev("dtor", p) /\ HasDtor(cs, q)) => Before(log, "dtor", q, i)
 
 (* ------------------------------ emission of cases + predicted logs ------------------------------ *)
 
 \* one line per finished behaviour: the case and what B says the modules will log
 EmitCase ==
-    (phase' = "exited" /\ phase # "exited") =>
-        PrintT("@@E" \o ToJson([n |-> cs.n, deps |-> cs.deps, list |-> cs.list,
+    (phase' = "exited" /\ phase # "exited" /\ InContract) =>
+        PrintT("@@E" \o ToJson([n |-> cs.n, deps |-> cs.deps, anti |-> cs.anti, list |-> cs.list,
                                  missing |-> SortedSeq(cs.missing), nopost |-> SortedSeq(cs.nopost),
                                  nodtor |-> SortedSeq(cs.nodtor), noctor |-> SortedSeq(cs.noctor),
                                  class |-> Class(cs),
